@@ -419,7 +419,9 @@ func GenSession(prop string, seed uint64, thorough bool) *Scenario {
 				c.CandAtMs = g.pick(0, 1, 10, 50, 100, 300)
 				if c.Upgrade != "" && g.p(p.pSecondCand) {
 					// two candidates around the same time
-					c.UpgradeAtMs = c.CandAtMs + g.pick(-5, 0, 1, 5, 20, 60, 150)
+					// (the last three aim at the instant the first candidate's upgrade packet is processed: probe,
+					// poll released by the 100 ms tick, upgrade)
+					c.UpgradeAtMs = c.CandAtMs + g.pick(-5, 0, 1, 5, 20, 60, 150, 100+2*c.LatencyMs, 100+3*c.LatencyMs, 100+4*c.LatencyMs)
 					if c.UpgradeAtMs < 0 {
 						c.UpgradeAtMs = 0
 					}
@@ -527,6 +529,9 @@ func GenSession(prop string, seed uint64, thorough bool) *Scenario {
 				if op.Size < 16 {
 					op.Size = g.pick(16, 30, 60)
 				}
+			}
+			if op.Binary && g.p(0.12) {
+				op.SlowMs = g.pick(1, 5, 30)
 			}
 			if g.p(p.pNoCompress) {
 				op.Opt = "nocompress"
